@@ -46,6 +46,21 @@ CHECKS = {
   note=("hmin over all particles or over real particles both accepted; "
         "CPU arrays only (no GPU path)."),
   technique="property-based testing (Hypothesis) against a reference evaluation of the documented formula"),
+ 'C03': dict(
+  text=("Generated group trees (flat groups and one level of sub-groups) of "
+        "order-sensitive integer tracer equations with drawn real / "
+        "start_idx / stop_idx (int, property, constant) / iterate / "
+        "condition / pre / post / update_nnps / several destinations and "
+        "sources are compiled through SPHEvaluator (one JIT compile per "
+        "program) and compared bitwise - arrays, equation attributes, "
+        "callback logs - with a reference interpreter written from the "
+        "documentation, over generated data sets with ghost particles and "
+        "empty source arrays."),
+  note=("Serial (no OpenMP); neighbour lists from LinkedListNNPS("
+        "sort_gids=True) on both sides; a failing JIT compile of a "
+        "documented tree is a violation; periodic ghosts not exercised "
+        "here (C04/C07)."),
+  technique="differential property-based testing: generated programs x generated data, compiled code vs. reference interpreter"),
 }
 
 NOT_APPLICABLE = [
